@@ -564,10 +564,21 @@ func c22Sweeps(thorough bool) []*c22Space {
 		for _, x := range vs {
 			total += x.n
 		}
-		nflags, ngate := 16, 1
-		if t == frame.CONNACK {
-			nflags = 32
+		// flag menu: thorough = all 16 nibbles (x HasServerVersion for CONNACK); quick = 4 nibbles
+		// {0,F,5,A} (x HasServerVersion); the header section always covers all 64 Framer combinations
+		flagMenu := []int{0, 0xF, 0x5, 0xA}
+		if thorough {
+			flagMenu = flagMenu[:0]
+			for i := 0; i < 16; i++ {
+				flagMenu = append(flagMenu, i)
+			}
 		}
+		if t == frame.CONNACK {
+			for _, b := range append([]int(nil), flagMenu...) {
+				flagMenu = append(flagMenu, b|16)
+			}
+		}
+		nflags, ngate := len(flagMenu), 1
 		if t == frame.SEND || t == frame.RECV {
 			ngate = 4
 		}
@@ -594,7 +605,7 @@ func c22Sweeps(thorough bool) []*c22Space {
 					}
 					i -= x.n
 				}
-				c22Flags(c22Framer(f), ix[1])
+				c22Flags(c22Framer(f), flagMenu[ix[1]])
 				return f
 			}})
 	}
